@@ -88,6 +88,16 @@ TEMPLATES = [
     "x = P(1, o).a",
     "print(P(1, 1), P(2, 2), sep=P(3, ''))",
     "x: int = P(1, 1)",
+    "P(1, o).a: int = P(2, 5)",
+    "P(1, b)[P(2, 'k')]: int = P(3, 5)",
+    "P(1, l)[P(2, 0):P(3, 1)]: list = P(4, [7])",
+    "P(1, b)['k'] += P(2, 5)",
+    "P(1, l)[0] -= P(2, 1)",
+    "P(1, l)[1:2] += P(2, [7])",
+    "P(1, l)[-1] *= P(2, 3)\nP(3, b)['j'] //= P(4, 2)",
+    "P(1, o).a = P(2, b)['k'] = P(3, l)[0] = P(4, 9)",
+    "P(1, b)['k'] = P(2, l)[0]",
+    "P(1, l)[len(P(2, l)) - 2] = P(3, l)[P(4, 0)]",
     "x = [P(1), P(2)][P(3, 0)]",
     "x = P(1, o).a.real + P(2, b)[P(3, 'k')] * P(4, 2)",
     "P(1, o).a, x = x, P(2, o).c = P(3, (1, 2))",
